@@ -47,6 +47,9 @@ pub enum Action {
     /// the (last) sender is dropped before the call
     DropBefore,
     DropDuring { delay_us: u32 },
+    /// a message of 160 packets whose send started before the call and is blocked half-way (the
+    /// kernel buffers are full) when the call starts
+    HugeInProgress,
 }
 
 #[derive(Clone, Debug, Serialize, Deserialize)]
@@ -68,6 +71,9 @@ fn msg_len(class: u8) -> usize {
     }
     match class {
         0 => 80,
+        // class 8: far more than the kernel buffers hold - the sender blocks in the middle of the
+        // message until the receiver takes its fragments
+        8 => 160 * f,
         k => f1 + (k as usize - 1) * f + 21,
     }
 }
@@ -127,12 +133,14 @@ impl Prop for C10 {
         }
         let op = proptest::strategy::Union::new_weighted(ops);
         let size = prop_oneof![4 => Just(0u8), 1 => 1u8..4];
+        let size_during = prop_oneof![8 => Just(0u8), 2 => 1u8..4, 1 => Just(8u8)];
         let action = prop_oneof![
             4 => Just(Action::Nothing),
             4 => size.clone().prop_map(Action::SendBefore),
-            4 => (0u32..3000, size).prop_map(|(delay_us, size)| Action::SendDuring { delay_us, size }),
+            4 => (0u32..3000, size_during).prop_map(|(delay_us, size)| Action::SendDuring { delay_us, size }),
             1 => Just(Action::DropBefore),
             1 => (0u32..3000).prop_map(|delay_us| Action::DropDuring { delay_us }),
+            1 => Just(Action::HugeInProgress),
         ];
         (proptest::collection::vec((op, action).prop_map(|(op, action)| Step { op, action }), 1..=30), proptest::bool::weighted(0.25))
             .prop_map(|(steps, bytes)| Case { steps, bytes })
@@ -222,7 +230,7 @@ fn run(case: &Case) -> Result<Outcome, Failure> {
             }
         }
         if op == Op::Recv {
-            let will_return = queued > 0 || sender_dropped || matches!(action, Action::SendBefore(_) | Action::SendDuring { .. } | Action::DropBefore | Action::DropDuring { .. });
+            let will_return = queued > 0 || sender_dropped || matches!(action, Action::SendBefore(_) | Action::SendDuring { .. } | Action::DropBefore | Action::DropDuring { .. } | Action::HugeInProgress);
             if !will_return {
                 op = Op::TryRecv;
             }
@@ -244,9 +252,19 @@ fn run(case: &Case) -> Result<Outcome, Failure> {
                 let _ = rr.recv();
                 sender_dropped = true;
             },
+            Action::HugeInProgress => {
+                let (rt, rr) = mpsc::channel();
+                cmd_tx.send(Cmd::Send { size: 8, delay_us: 0, seq: next_send, reply: rt }).unwrap();
+                next_send += 1;
+                during = Some(rr);
+                during_is_send = true;
+                // give the sender time to put the first packet on the wire and fill the buffers
+                std::thread::sleep(Duration::from_millis(3));
+            },
             _ => {},
         }
-        let queued = next_send - next_recv;
+        let in_progress = matches!(action, Action::HugeInProgress);
+        let queued = next_send - next_recv - in_progress as u32;
         let dropped_before = sender_dropped;
         // --- the call, with the "during" action racing it -----------------------------------------------------
         let (s_stamp, s_at) = (stamp(), Instant::now());
@@ -319,13 +337,53 @@ fn run(case: &Case) -> Result<Outcome, Failure> {
             Ok(b) => decode(b),
             Err(x) => x,
         };
+        // A huge racing message blocks its sender until it is received: if this call did not take
+        // it (it returned Empty before the message started), a blocking recv takes it now - which
+        // is also the "blocking receive after an Empty still works" obligation.
+        let huge = matches!(action, Action::SendDuring { size: 8, .. } | Action::HugeInProgress);
+        let huge_seq = next_send.wrapping_sub(1);
+        let mut extras: Vec<Res> = vec![];
+        if huge {
+            // everything up to and including the huge message has to be taken now
+            let mut taken_upto = match &res {
+                Res::Msg(q) => Some(*q),
+                _ => None,
+            };
+            while taken_upto != Some(huge_seq) {
+                let r = rx.take().unwrap();
+                let out = sandbox::watched(move || {
+                    let x = match &r {
+                        Rx::T(r) => match r.recv() {
+                            Ok(Node::Tagged { body, .. }) => Ok(body),
+                            Ok(_) => Err("unexpected value".to_string()),
+                            Err(e) => Err(format!("{:?}", e)),
+                        },
+                        Rx::B(r) => r.recv().map_err(|e| format!("{:?}", e)),
+                    };
+                    (r, x)
+                });
+                match out {
+                    Ok((r, x)) => {
+                        rx = Some(r);
+                        let d = decode(x);
+                        match &d {
+                            Res::Msg(q) => taken_upto = Some(*q),
+                            Res::Bad(e) => fail!("timed:receive-error", "step {}: blocking recv after {:?} (a message of 160 packets in flight): {}", si, op, e),
+                            other => fail!("timed:lost-message", "step {}: the message of 160 packets sent during {:?} was never delivered ({:?})", si, op, other),
+                        }
+                        extras.push(d);
+                    },
+                    Err(h) => return Err(sandbox::hang_failure("timed:lost-message", &format!("step {}: a message of 160 packets was being sent while {:?} ran; the blocking recv issued afterwards never returned (the message was lost half-way)", si, op), h)),
+                }
+                if extras.len() > 64 {
+                    fail!("timed:order", "step {}: could not reach the huge message {}", si, huge_seq);
+                }
+            }
+        }
         let during_done: Option<Done> = match during {
             Some(rr) => Some(rr.recv().map_err(|_| Failure::inconclusive("sender thread gone"))?),
             None => None,
         };
-        if let (true, Some(d)) = (during_is_send, &during_done) {
-            ensure!(d.ok, "timed:send-failed", "step {}: racing send failed although the receiver exists", si);
-        }
         let elapsed = r_at.duration_since(s_at);
         let _ = (s_stamp, r_stamp);
         // --- oracle ---------------------------------------------------------------------------------------------
@@ -363,6 +421,15 @@ fn run(case: &Case) -> Result<Outcome, Failure> {
                 ensure!(queued == 0, "timed:disconnected-before-backlog", "{}: Disconnected with {} message(s) undelivered", ctx, queued);
                 ensure!(sender_dropped, "timed:false-disconnected", "{}: Disconnected although the sender is alive", ctx);
             },
+        }
+        for e in &extras {
+            if let Res::Msg(q) = e {
+                ensure!(*q == next_recv, "timed:order", "step {}: blocking recv returned message {} instead of {}", si, q, next_recv);
+                next_recv += 1;
+                if had_empty {
+                    stats.0 += 1;
+                }
+            }
         }
         if let Op::Timeout(ns) = op {
             if during_done.is_some() && ns >= 5_000_000 {
